@@ -9,7 +9,8 @@
 (* through an order-preserving table (key id i < j  <=>  bytes(i) < bytes  *)
 (* (j)), so the integer order *is* the byte order of C05.                  *)
 (*   key 0            the empty key                                        *)
-(*   key >= BigKey    a key longer than MaxKeySize (32768 bytes)           *)
+(*   key >= BigKey    a key longer than MaxKeySize (32768 bytes); the     *)
+(*                    harness maps id 999999 to a key of exactly that size *)
 (*   value 0          the empty value                                      *)
 (* Anchors: bucket.go:148-578 (API + error precedence), cursor.go.         *)
 (***************************************************************************)
